@@ -141,21 +141,22 @@ Proof. reflexivity. Qed.
 Lemma attach_compat : forall u v, unit_compatible u v = true -> attach_opt u v = with_unit u v.
 Proof.
   intros [u|] v H; [|reflexivity].
-  destruct v as [| s | o u0 |]; cbn in *; try discriminate; try reflexivity.
+  destruct v as [| s | o u0 d f |]; cbn in *; try discriminate; try reflexivity.
   now rewrite H.
 Qed.
 
 Lemma leaf_call_spec : forall l, leaf_units_ok l = true -> leaf_call l = sp_leaf l.
 Proof.
-  induction l as [o u | s | ra vs i | u inner IH | p inner IH]; intros H;
+  induction l as [o u | s | ra vs i | u inner IH | p inner IH | w inner IH]; intros H;
     cbn [Model.leaf_call Spec.sp_leaf Spec.leaf_units_ok] in *; try reflexivity.
   - apply andb_true_iff in H. destruct H as [H1 H2]. rewrite (IH H1). now apply attach_compat.
   - destruct p; [now apply IH | reflexivity].
+  - now rewrite (IH H).
 Qed.
 
 Lemma leaf_sg_spec : forall l, leaf_sg l = sp_group l.
 Proof.
-  induction l as [o u | s | ra vs i | u inner IH | p inner IH]; cbn [Model.leaf_sg Spec.sp_group]; try reflexivity; try exact IH.
+  induction l as [o u | s | ra vs i | u inner IH | p inner IH | w inner IH]; cbn [Model.leaf_sg Spec.sp_group]; try reflexivity; try exact IH.
 Qed.
 
 Theorem field_value_spec : forall unit v,
@@ -200,16 +201,33 @@ Proof.
   induction rawsg as [|[n g] r IH]; [reflexivity|]. cbn. f_equal. exact IH.
 Qed.
 
+Definition wrap_sitem (w : wrapper) (it : sitem) : sitem :=
+  match it with STimestamp t => STimestamp t | SValue n v => SValue n (wrap_value w v) end.
+Lemma calls_wrap : forall w its, calls (map (wrap_item w) its) = map (wrap_sitem w) (calls its).
+Proof.
+  intros w its. unfold calls. rewrite !map_map. apply map_ext. now intros [t|n b v].
+Qed.
+Lemma rows_calls_wrap : forall w rs, rows_calls (map (wrap_row w) rs) = map (wrap_sitem w) (rows_calls rs).
+Proof.
+  intros w rs. unfold rows_calls. induction rs as [|r rs IH]; [reflexivity|].
+  cbn [map flat_map]. rewrite map_app, IH. now destruct r.
+Qed.
+Lemma rows_groups_wrap : forall w rs, rows_groups (map (wrap_row w) rs) = rows_groups rs.
+Proof.
+  intros w rs. unfold rows_groups. induction rs as [|r rs IH]; [reflexivity|].
+  cbn [map flat_map]. rewrite IH. now destruct r.
+Qed.
+
 Notation op_write := (op_write pascal snake kebab true).
 Notation op_fields := (op_fields pascal snake kebab true).
 Notation op_field := (op_field pascal snake kebab true).
 Notation op_variants := (op_variants pascal snake kebab true).
 Notation op_vdata := (op_vdata pascal snake kebab true).
-Notation op_sg := (op_sg pascal snake kebab true fsg).
-Notation sg_fields := (sg_fields pascal snake kebab true fsg).
-Notation sg_field := (sg_field pascal snake kebab true fsg).
-Notation sg_variants := (sg_variants pascal snake kebab true fsg).
-Notation sg_vdata := (sg_vdata pascal snake kebab true fsg).
+Notation op_sg := (op_sg pascal snake kebab true fsg true).
+Notation sg_fields := (sg_fields pascal snake kebab true fsg true).
+Notation sg_field := (sg_field pascal snake kebab true fsg true).
+Notation sg_variants := (sg_variants pascal snake kebab true fsg true).
+Notation sg_vdata := (sg_vdata pascal snake kebab true fsg true).
 Notation sp_entry := (sp_entry pascal snake kebab).
 Notation sp_fields := (sp_fields pascal snake kebab).
 Notation sp_field := (sp_field pascal snake kebab).
@@ -242,7 +260,11 @@ Lemma sp_fields_cons : forall st pfx id k r a,
 Proof. reflexivity. Qed.
 Lemma op_field_flatten : forall ra pfx id p o d n,
   op_field ra pfx id (KFlatten p o d) n
-  = match o with OptNone => [] | _ => op_write d (append_to pascal snake kebab p (make_ns ra n)) end.
+  = match o with
+    | OptNone => []
+    | Wrapped w => map (wrap_item w) (op_write d (append_to pascal snake kebab p (make_ns ra n)))
+    | _ => op_write d (append_to pascal snake kebab p (make_ns ra n))
+    end.
 Proof. reflexivity. Qed.
 Lemma sg_field_flatten : forall ra pfx id p o d n,
   sg_field ra pfx id (KFlatten p o d) n
@@ -250,7 +272,11 @@ Lemma sg_field_flatten : forall ra pfx id p o d n,
 Proof. reflexivity. Qed.
 Lemma sp_field_flatten : forall st pfx id p o d a,
   sp_field st pfx id (KFlatten p o d) a
-  = match o with OptNone => [] | _ => sp_entry d st (a ++ flat_prefix st p) end.
+  = match o with
+    | OptNone => []
+    | Wrapped w => map (wrap_row w) (sp_entry d st (a ++ flat_prefix st p))
+    | _ => sp_entry d st (a ++ flat_prefix st p)
+    end.
 Proof. reflexivity. Qed.
 Lemma op_variants_cons : forall ra pfx tg id name d r i n,
   op_variants ra pfx tg (VCons id name d r) i n
@@ -325,7 +351,7 @@ Proof.
   - (* KField *) intros name unit sg v H. cbn in H. apply negb_true_iff in H. subst sg. split; reflexivity.
   - (* KFlatten *) intros p o d IH H. cbn in H. destruct (IH H) as [A B]. split; intros.
     + rewrite sg_field_flatten. destruct o; try reflexivity; apply A.
-    + rewrite sp_field_flatten. destruct o; try reflexivity; apply B.
+    + rewrite sp_field_flatten. destruct o; try reflexivity; rewrite ?rows_groups_wrap; apply B.
   - (* KFlattenEntry *) intros raw rawsg H. cbn in H. destruct rawsg; [|discriminate]. split; intros.
     + reflexivity.
     + cbn [Spec.sp_field]. now rewrite <- raw_groups.
@@ -391,7 +417,7 @@ Proof.
     rewrite op_field_flatten, sg_field_flatten, sp_field_flatten.
     destruct (IH (append_to pascal snake kebab p (make_ns ra n)) H) as [W G].
     unfold acc in *. rewrite append_to_style, append_to_prefix, make_ns_style, make_ns_prefix in W, G.
-    split; [destruct o; try reflexivity; exact W|].
+    split; [destruct o; try reflexivity; try exact W; now rewrite calls_wrap, rows_calls_wrap, W|].
     intros S.
     assert (Goal : op_sg d (flatten_sg_ns pascal snake kebab fsg p (make_ns ra n))
                    = rows_groups (sp_entry d (in_force ra (ns_style n))
@@ -402,7 +428,7 @@ Proof.
         destruct S as [S|S]; [congruence|]. destruct p as [q|]; cbn in S.
         + destruct (proj1 no_groups_all d S) as [A B]. now rewrite A, B.
         + cbn [append_to] in G. apply G. now right. }
-    destruct o; try reflexivity; exact Goal.
+    destruct o; try reflexivity; rewrite ?rows_groups_wrap; exact Goal.
   - (* KFlattenEntry *)
     intros raw rawsg ra pfx id n _. cbn [Model.op_field Model.sg_field Spec.sp_field].
     split; [apply raw_calls | intros _; apply raw_groups].
@@ -444,13 +470,13 @@ Proof.
 Qed.
 
 Theorem refine_groups : forall d, units_ok d = true -> (fsg = true \/ sg_safe d = true) ->
-  root_sg pascal snake kebab true fsg d = spec_groups pascal snake kebab d.
+  root_sg pascal snake kebab true fsg true d = spec_groups pascal snake kebab d.
 Proof. intros d H G. destruct refine_all as [R _]. exact (proj2 (R d ns_root H) G). Qed.
 
 (* every sample-group pair carries the name of an item the same entry writes (or comes from a hand-written
    flattened Entry, which is free to say anything) *)
 Theorem groups_use_written_names : forall d n g, units_ok d = true -> (fsg = true \/ sg_safe d = true) ->
-  In (n, g) (root_sg pascal snake kebab true fsg d) ->
+  In (n, g) (root_sg pascal snake kebab true fsg true d) ->
   (exists b v, In (IValue n b v) (root_write pascal snake kebab true d)) \/
   In (RGroup n g) (spec_rows pascal snake kebab d).
 Proof.
@@ -475,7 +501,7 @@ Lemma count_all : forall fixed,
 Proof.
   intros fixed. apply tree_mutind; intros; cbn; try reflexivity; try easy.
   - rewrite app_length. now rewrite H, H0.
-  - destruct o; try apply H; reflexivity.
+  - destruct o; try apply H; try reflexivity. rewrite map_length. apply H.
   - now rewrite map_length.
   - destruct i as [|j]; [|apply H0]. rewrite app_length, H. now destruct tg.
 Qed.
@@ -518,9 +544,11 @@ Proof.
   - intros p o d IH ra pfx id n H. cbn in H.
     change (Forall cow_kind_ok (match o with
                                 | OptNone => []
+                                | Wrapped w => map (wrap_item w) (Model.op_write pascal snake kebab ftag d (append_to pascal snake kebab p (make_ns ra n)))
                                 | _ => Model.op_write pascal snake kebab ftag d (append_to pascal snake kebab p (make_ns ra n))
                                 end)).
-    destruct o; try constructor; now apply IH.
+    destruct o; try constructor; try (now apply IH).
+    apply Forall_map. eapply Forall_impl; [|now apply IH]. now intros [t|nm b v].
   - intros raw rawsg ra pfx id n H. cbn in H. cbn [Model.op_field].
     induction raw as [|x r IH]; [constructor|]. cbn in H. apply andb_true_iff in H. destruct H as [Hx Hr].
     cbn [map]. constructor; [|now apply IH]. cbn. now rewrite Hx.
@@ -564,8 +592,8 @@ Definition witness_group_prefix : edef :=
     (FCons (bs "child") (KFlatten (Some (PExact (bs "foo_"))) Plain
        (EStruct Preserve None (FCons (bs "op") (KField None None true (LStr (bs "Get"))) FNil))) FNil).
 
-Lemma group_prefix_refuted : forall pascal snake kebab ftag,
-  root_sg pascal snake kebab ftag false witness_group_prefix = [(bs "op", bs "Get")] /\
+Lemma group_prefix_refuted : forall pascal snake kebab ftag fwrap,
+  root_sg pascal snake kebab ftag false fwrap witness_group_prefix = [(bs "op", bs "Get")] /\
   spec_groups pascal snake kebab witness_group_prefix = [(bs "foo_op", bs "Get")] /\
   observe (root_write pascal snake kebab ftag witness_group_prefix) = [SValue (bs "foo_op") (VString (bs "Get"))] /\
   units_ok pascal snake kebab witness_group_prefix = true /\ sg_safe witness_group_prefix = false.
@@ -585,9 +613,9 @@ Definition witness_tag_exact_prefix : edef :=
         (VCons (bs "Read") None (DStruct (FCons (bs "Bytes") (KField None None false (LNum (OU 1) 0)) FNil)) VNil) 0.
 Lemma tag_exact_prefix_refuted_as_found :
   observe (root_write P S_ K false witness_tag_exact_prefix)
-    = [SValue (bs "api_operation") (VString (bs "read")); SValue (bs "API:bytes") (VMetric (OU 1) 0)] /\
+    = [SValue (bs "api_operation") (VString (bs "read")); SValue (bs "API:bytes") (VMetric (OU 1) 0 [] false)] /\
   spec_items P S_ K witness_tag_exact_prefix
-    = [SValue (bs "API:operation") (VString (bs "read")); SValue (bs "API:bytes") (VMetric (OU 1) 0)].
+    = [SValue (bs "API:operation") (VString (bs "read")); SValue (bs "API:bytes") (VMetric (OU 1) 0 [] false)].
 Proof. vm_compute. split; reflexivity. Qed.
 
 (* (d) an inflectable tag name is inflected twice, and Inflector is not idempotent:
@@ -598,3 +626,19 @@ Lemma tag_twice_refuted_as_found :
   observe (root_write P S_ K false witness_tag_twice) = [SValue (bs "api-cache-s-3") (VString (bs "read"))] /\
   spec_items P S_ K witness_tag_twice = [SValue (bs "api-cache-s3") (VString (bs "read"))].
 Proof. vm_compute. split; reflexivity. Qed.
+
+(* (e) a flattened child wrapped in WithDimensions / ForceFlag: the wrappers' InflectableEntry impls did not forward
+   sample_group(), so the child's sample group vanished (for every Inflector) *)
+Definition witness_wrapped_group : edef :=
+  EStruct Preserve None
+    (FCons (bs "child") (KFlatten None (Wrapped (WDims [(bs "k", bs "v")]))
+       (EStruct Preserve None
+          (FCons (bs "op") (KField None None true (LStr (bs "Get")))
+          (FCons (bs "n") (KField None None false (LNum (OU 1) 0)) FNil)))) FNil).
+Lemma wrapped_group_refuted_as_found : forall pascal snake kebab ftag fsg,
+  root_sg pascal snake kebab ftag fsg false witness_wrapped_group = [] /\
+  spec_groups pascal snake kebab witness_wrapped_group = [(bs "op", bs "Get")] /\
+  observe (root_write pascal snake kebab ftag witness_wrapped_group)
+    = [SValue (bs "op") (VString (bs "Get")); SValue (bs "n") (VMetric (OU 1) 0 [(bs "k", bs "v")] false)] /\
+  root_sg pascal snake kebab ftag fsg true witness_wrapped_group = [(bs "op", bs "Get")].
+Proof. intros. vm_compute. destruct fsg; repeat split. Qed.
